@@ -395,12 +395,16 @@ func RunC16(c *Ctx) {
 				}
 				// the StdLibCompatible helpers take the tree as their INPUT: they must not write to it
 				// (seeded change C16r7-m1: the 'clone' was append(arg[:0], arg...), i.e. the argument)
+				var conv interface{}
 				switch t := v.(type) {
 				case []interface{}:
-					rjson.StdLibCompatibleSlice(t)
+					conv = rjson.StdLibCompatibleSlice(t)
 				case map[string]interface{}:
-					rjson.StdLibCompatibleMap(t)
+					conv = rjson.StdLibCompatibleMap(t)
 				}
+				// ... and what they return is the caller's own, empty containers included: writing into
+				// the result must not show in the argument (seeded change C16r8-m1)
+				scribble(conv, 0)
 				if !refmodel.EqTree(v, snap) {
 					c.Rec.Violate(cs, "StdLibCompatibleSlice/Map modified the value tree it was given", "StdLibCompatibleSlice", show(snap), show(v))
 					snap = refmodel.CopyTree(v)
